@@ -98,6 +98,14 @@ impl Encoder<Frame> for FrameCodec {
     fn encode(&mut self, item: Frame, dst: &mut BytesMut) -> Result<(), Self::Error> {
         let data_len = item.data.len();
 
+        // The length field is 16 bits wide: a larger payload cannot be framed
+        if data_len > u16::MAX as usize {
+            return Err(io::Error::new(
+                io::ErrorKind::InvalidInput,
+                format!("frame payload too large: {} bytes", data_len),
+            ));
+        }
+
         // Reserve space: header + data
         dst.reserve(HEADER_OVERHEAD_SIZE + data_len);
 
